@@ -67,6 +67,13 @@ def write_input(c, stem, seed):
     return blocks, bpf, len(cards) + 1, blocsize
 
 
+def _win(c, a, p):
+    """Window function of the filterbank of antenna a, polarisation p (sub-box `windows`: one per stream, the 2-D list form)."""
+    if c.get('windows'):
+        return c['windows'][(a * c['npol'] + p) % len(c['windows'])]
+    return c.get('window', 'hamming')
+
+
 def make_src(c, seed):
     SpyAntenna, SpyArray, _, _ = vharness.make_spies()
     na, npol = c['nants'], c['npol']
@@ -98,7 +105,7 @@ def one_recording(c, nsub, req, stem_in, stem_out, in_blocks, bpf_in, ncards, bl
     for a in range(na):
         row = []
         for p in range(npol):
-            f = sv.PolyphaseFilterbank(num_taps=M, num_branches=P, window_fn=c.get('window', 'hamming'))
+            f = sv.PolyphaseFilterbank(num_taps=M, num_branches=P, window_fn=_win(c, a, p))
             if lazy == 'default':
                 pass        # the library's own default estimate (unseeded, default size), made lazily by the backend
             elif lazy:
@@ -239,12 +246,12 @@ def one_recording(c, nsub, req, stem_in, stem_out, in_blocks, bpf_in, ncards, bl
                 # "scaled as if embedded in unit-variance noise": the estimate the gain is built on must be the channelised
                 # deviation of unit-variance noise for THIS filterbank (window included), which follows from the definition.
                 # (sampling error of the estimate: 1/sqrt(2 n) relative, n = factor * channels; acceptance band >= 7 sigma)
-                ana = np.array(vharness.unit_noise_channel_stds(M, P, c.get('window', 'hamming')))
+                ana = np.array(vharness.unit_noise_channel_stds(M, P, _win(c, a, p)))
                 nvals = (10000 if lazy == 'default' else 200) * (P // 2)
                 band = 7.0 / np.sqrt(2.0 * nvals) + 2e-3
                 if np.any(np.abs(stds0[a][p] / ana - 1.0) > band):
                     V('unit_noise_gain', '%s antenna %d pol %d: channelised unit-noise deviations used for the gain are %s; the %s filterbank '
-                      'gives %s for unit-variance noise (ratio %s, acceptance +-%.3f)' % (tag, a, p, stds0[a][p], c.get('window', 'hamming'), ana,
+                      'gives %s for unit-variance noise (ratio %s, acceptance +-%.3f)' % (tag, a, p, stds0[a][p], _win(c, a, p), ana,
                                                                                        stds0[a][p] / ana, band))
                     return False
                 # the synthetic stream through digitiser and filterbank: FIR+DFT definition over the WHOLE observed
@@ -253,7 +260,7 @@ def one_recording(c, nsub, req, stem_in, stem_out, in_blocks, bpf_in, ncards, bl
                     pfb_in = np.concatenate([cl['q'] for cl in dig[a][p].calls])
                 else:
                     pfb_in = np.concatenate([arr[a][p] for _, _, arr in src.log])
-                ref = vharness.pfb_definition(pfb_in, M, P, vharness.ref_window(M, P, c.get('window', 'hamming')))[:, c['start_chan']:c['start_chan'] + nc]
+                ref = vharness.pfb_definition(pfb_in, M, P, vharness.ref_window(M, P, _win(c, a, p)))[:, c['start_chan']:c['start_chan'] + nc]
                 syn_in = np.concatenate([calls[j]['x'] for j in range(0, len(calls), 2)])
                 if syn_in.shape != ref.shape:
                     V('spectra_count', '%s: %s channelised synthetic spectra, definition gives %s' % (tag, syn_in.shape, ref.shape))
@@ -429,6 +436,12 @@ def run(ctx):
                 cases.append(dict(bits=bits, npol=1, nants=1, directio=0, aligned=False, lazy='default', window=window,
                                   layout=[2, 2], content='tone', digitize=digitize, T=4, nchans=4, start_chan=0,
                                   recordings=1, seed=ctx.seed))
+    # sub-box: a different window function per stream (2-D list of filterbanks), estimates left to the library
+    for windows, npol, nants in ((['hamming', 'boxcar'], 2, 1), (['boxcar', 'hann'], 2, 1), (['hann', 'hamming'], 1, 2)):
+        for digitize in (True, False):
+            cases.append(dict(bits=8, npol=npol, nants=nants, directio=0, aligned=False, lazy='default', windows=windows,
+                              layout=[2, 2], content='tone', digitize=digitize, T=4, nchans=4 if nants == 1 else 2, start_chan=0,
+                              recordings=1, seed=ctx.seed))
     # sub-box: sparse input headers (no OBSERVER / TELESCOP / SRC_NAME / SCANLEN), with and without the library's header template
     for sparse in (True, False):
         for template in (True, False):
